@@ -15,6 +15,7 @@ package main
 import (
 	"fmt"
 	"os"
+	"regexp"
 	"strconv"
 	"strings"
 	"unicode"
@@ -413,6 +414,7 @@ type FuncContract struct {
 	Ensures   []Clause
 	Asserts   []Clause // checked at every return of the body (may mention locals); never assumed by callers
 	Assumes   []Clause // assumed at entry of the body without being a caller obligation (listed in the evidence)
+	PostDefs  []Clause // spec-function definitions instantiated at the results (assumed at every return)
 	Decreases *Clause
 	Loops     map[int]*LoopSpec
 	Inline    bool
@@ -539,6 +541,19 @@ func (c *Contracts) loadFile(path string, pkgName string) error {
 			}
 			cur = &FuncContract{Key: key, Loops: map[int]*LoopSpec{}, File: path}
 			c.Funcs[key] = cur
+		case "def":
+			if cur == nil {
+				return fmt.Errorf("%s:%d: def outside func", path, j.line)
+			}
+			cl, err := mkClause(rest, j.line)
+			if err != nil {
+				return err
+			}
+			if regexp.MustCompile(`\bresult\b|\br[0-9]\b`).MatchString(rest) {
+				cur.PostDefs = append(cur.PostDefs, cl)
+			} else {
+				cur.Assumes = append(cur.Assumes, cl)
+			}
 		case "assume":
 			if cur == nil {
 				c.Assumes = append(c.Assumes, fmt.Sprintf("%s:%d: %s", path, j.line, rest))
